@@ -209,7 +209,7 @@ func (h *handler) Handle(ctx context.Context) {
 			idleTimer.Stop()
 			idleTimer.Reset(idleTimeout)
 
-			if err := h.handleMessage(ctx, msg, responder); err != nil {
+			if err := h.safeHandleMessage(ctx, msg, responder); err != nil {
 				h.disconnect(errors.New("handling message failed").Wrap(err))
 			}
 
@@ -280,6 +280,20 @@ func (h *handler) startReceiving(ctx context.Context) {
 			}
 		}
 	}
+}
+
+// safeHandleMessage handles a message and reports a panic raised while handling
+// it as an error, so that the connection is ended through the normal disconnect
+// path. Without it the panic would unwind Handle and close the scheduler while
+// the receiving goroutine may still dispatch into it.
+func (h *handler) safeHandleMessage(ctx context.Context, msg hwebsocket.Msg, responder hwebsocket.ResponseSender) (err error) {
+	defer func() {
+		if r := recover(); r != nil {
+			err = errors.New("handling message panicked").WithTag("panic", r)
+		}
+	}()
+
+	return h.handleMessage(ctx, msg, responder)
 }
 
 func (h *handler) handleMessage(ctx context.Context, msg hwebsocket.Msg, responder hwebsocket.ResponseSender) error {
